@@ -392,10 +392,16 @@ static Outcome run_isolated(const Opts &o, const Target &t, bool is_enum,
         return out;
     std::string errpath = o.errdir + "/iso." + std::to_string(getpid()) + ".err";
     uint64_t t0 = now_ns();
+    char *shm = (char *)mmap(nullptr, Case::kShmCap, PROT_READ | PROT_WRITE, MAP_SHARED | MAP_ANONYMOUS, -1, 0);
+    if (shm == MAP_FAILED)
+        shm = nullptr;
+    if (shm)
+        shm[0] = 0;
     pid_t pid = fork();
     if (pid == 0)
     {
         close(pfd[0]);
+        Case::shm() = shm;
         redirect_stderr(errpath);
         Case c;
         RunResult r;
@@ -454,6 +460,8 @@ static Outcome run_isolated(const Opts &o, const Target &t, bool is_enum,
         out.verdict = 4;
         out.sig = "hang";
         out.msg = fmt("no result within %.1f s", timeout_s);
+        if (shm)
+            out.desc = shm;
     }
     else
     {
@@ -479,6 +487,8 @@ static Outcome run_isolated(const Opts &o, const Target &t, bool is_enum,
         }
     }
     unlink(errpath.c_str());
+    if (shm)
+        munmap(shm, Case::kShmCap);
     out.secs = (now_ns() - t0) / 1e9;
     return out;
 }
